@@ -141,7 +141,7 @@ type tcase struct {
 	A    crit   `json:"a"`
 	B    crit   `json:"b"`
 	Keys []key  `json:"keys"`
-	HA   int    `json:"ha,omitempty"` // hour of day (UTC) given to a's dates: "only the date is used"
+	HA   int    `json:"ha,omitempty"` // clock (hour of day + 24 * zone) given to a's dates: "only the date is used"
 	HB   int    `json:"hb,omitempty"`
 }
 
@@ -163,11 +163,21 @@ type record struct {
 
 var dayBase = time.Date(1999, 12, 31, 0, 0, 0, 0, time.UTC)
 
-func dayToTime(n int64, hour int) time.Time {
+// zones a caller may build its dates in: "only the date is used, the time and timezone are ignored", i.e. the
+// calendar date of the value in its own location (that is also what goes on the wire)
+var zones = []*time.Location{time.UTC, time.FixedZone("+0200", 2*3600), time.FixedZone("-0500", -5*3600),
+	time.FixedZone("+1300", 13*3600), time.FixedZone("-1100", -11*3600)}
+
+// clocks given to the operands of the enumerated pairs (the pairs themselves are about days)
+var clockPairs = [][2]int{{0, 0}, {24*1 + 0, 24*3 + 23}, {24*4 + 1, 24*2 + 0}, {24*2 + 12, 24*1 + 0}, {24*3 + 0, 24*4 + 23}}
+
+// dayToTime: clock = hour of day + 24 * index of the zone
+func dayToTime(n int64, clock int) time.Time {
 	if n == 0 {
 		return time.Time{}
 	}
-	return dayBase.AddDate(0, 0, int(n)).Add(time.Duration(hour) * time.Hour)
+	d := dayBase.AddDate(0, 0, int(n))
+	return time.Date(d.Year(), d.Month(), d.Day(), clock%24, 0, 0, 0, zones[(clock/24)%len(zones)])
 }
 
 // timeToDay keeps only the date ("Only the date is used, the time and
@@ -460,6 +470,10 @@ func runAll(cases []tcase, outPath string, out *vh.Out) {
 		if cases[i].Fam == "keys" {
 			keyIdx = append(keyIdx, i)
 		} else {
+			if cases[i].HA == 0 && cases[i].HB == 0 {
+				cp := clockPairs[i%len(clockPairs)]
+				cases[i].HA, cases[i].HB = cp[0], cp[1]
+			}
 			recs[i] = runAnd(&cases[i])
 		}
 	}
@@ -794,7 +808,7 @@ func cmdRandom(outPath string, seed int64, pairs, cmds int, out *vh.Out) {
 	for i := 0; i < pairs; i++ {
 		p := newPools(r)
 		cases = append(cases, tcase{Fam: "random", A: p.randCrit(r, 3), B: p.randCrit(r, 3),
-			HA: r.Intn(24), HB: r.Intn(24)})
+			HA: r.Intn(24 * len(zones)), HB: r.Intn(24 * len(zones))})
 	}
 	for i := 0; i < cmds; i++ {
 		p := newPools(r)
